@@ -21,6 +21,7 @@ type algCase struct {
 	Alias    bool   `json:"alias,omitempty"`      // pass A for both operands
 	CollB    string `json:"collator_b,omitempty"` // ordering of the second operand when it differs (same equivalence)
 	Probe    int    `json:"probe"`                // value used for the independence mutation
+	Hist     int    `json:"hist,omitempty"`       // how the operands got their content: 0 added to a fresh set; 1 one member was another value while the set was looked at; 2 the set held other values, was looked at, emptied and refilled
 }
 
 func subsetCodes(mask, n int) []int {
@@ -138,6 +139,54 @@ func execAlg[E any](c algCase, se setElem[E]) (res core.Result) {
 	a, b := norm(c.A), norm(c.B)
 	if c.Alias {
 		b = a
+	}
+	// operands with a past: the set is looked at through every observer while it holds other values of the
+	// same number, then brought to its content without being looked at at any other size
+	plain := build
+	observe := func(s col.SetLike[E]) {
+		for it := s.GetIterator(); it.HasNext(); {
+			it.GetNext()
+		}
+		_, _, _ = s.AsArray(), s.GetSize(), s.IsEmpty()
+		if s.GetSize() > 0 {
+			_ = s.GetValue(1)
+			_ = s.GetIndex(s.GetValue(-1))
+		}
+		_ = S.Or(s, s)
+	}
+	withPast := false
+	build = func(codes []int, collator age.CollatorLike[E]) col.SetLike[E] {
+		target := norm(codes)
+		var decoys []int
+		for k := 0; k < se.ncodes && len(decoys) < len(target); k++ {
+			free := true
+			for _, x := range append(append([]int{}, target...), decoys...) {
+				if equiv(x, k) {
+					free = false
+				}
+			}
+			if _, comparable := refCmp(k, k); free && comparable {
+				decoys = append(decoys, k)
+			}
+		}
+		if c.Hist == 0 || len(target) == 0 || len(decoys) < len(target) {
+			return plain(codes, collator)
+		}
+		withPast = true
+		if c.Hist == 1 {
+			s := plain(append([]int{decoys[0]}, target[1:]...), collator)
+			observe(s)
+			s.RemoveValue(se.val(decoys[0]))
+			s.AddValue(se.val(target[0]))
+			return s
+		}
+		s := plain(decoys, collator)
+		observe(s)
+		s.RemoveAll()
+		for _, k := range target {
+			s.AddValue(se.val(k))
+		}
+		return s
 	}
 	in := func(k int, set []int) bool {
 		for _, x := range set {
@@ -269,6 +318,9 @@ func execAlg[E any](c algCase, se setElem[E]) (res core.Result) {
 		return res
 	}
 	// independence: change the result, operands must not move; change an operand, the result must not move
+	if withPast {
+		res.Classes = append(res.Classes, fmt.Sprintf("operands-with-a-past-%d", c.Hist))
+	}
 	probe := se.val(c.Probe % se.ncodes)
 	R.AddValue(probe)
 	if len(got) > 0 {
@@ -343,6 +395,7 @@ func genAlgExhaustive(universe int) func(core.Source) algCase {
 			c.B = subsetCodes(mb, universe)
 		}
 		c.Probe = universe // a value outside the universe
+		c.Hist = s.Choose(3, "hist")
 		return c
 	}
 }
@@ -379,6 +432,7 @@ func genAlgRandom(s core.Source) algCase {
 		c.B = gen("b")
 	}
 	c.Probe = s.Choose(dom, "probe")
+	c.Hist = s.Choose(3, "hist")
 	// the second operand may be ordered differently, as long as it agrees on which values are equal
 	if !c.Alias && c.Collator != "coarse" && s.Choose(3, "collator-b") == 0 {
 		c.CollB = "reversed"
